@@ -406,6 +406,12 @@ def cases(tier):
             out.append(dict(base, rewrite=True))
             out.append(dict(base, late_model=True))
             out.append(dict(base, late_model=True, hooks={'pre_model': True}))
+    # a large description: 60 systems, a group of 1100 agents between an empty group and a small one
+    big_prios = [(i * 7) % 5 - 2 for i in range(60)]
+    out.append({'leg': 'decode', 'prios': big_prios, 'sizes': [0, 1100, 3], 'module_key': True,
+                'hooks': {n: True for n in hook_names(60, 3)}})
+    out.append({'leg': 'decode', 'prios': big_prios, 'sizes': [0, 1100, 3], 'module_key': False,
+                'hooks': {n: (i % 3 == 0) for i, n in enumerate(hook_names(60, 3))}})
     # listed systems that are collectors (incl. priority 0 and an end of 0: values that are falsy), all hooks / none
     for ns in (1, 2):
         for prios in PRIOS[ns]:
